@@ -217,11 +217,23 @@ impl Run {
         init: impl Fn() + Sync,
         f: impl Fn(&T, &mut Local) + Sync,
     ) {
+        self.par_for_n(self.threads, items, init, f)
+    }
+
+    /// `par_for` with an explicit number of workers.
+    pub fn par_for_n<T: Sync>(
+        &self,
+        workers: usize,
+        items: &[T],
+        init: impl Fn() + Sync,
+        f: impl Fn(&T, &mut Local) + Sync,
+    ) {
         let next = AtomicUsize::new(0);
         let n = items.len();
-        let chunk = (n / (self.threads * 64)).max(1);
+        let workers = workers.max(1);
+        let chunk = (n / (workers * 64)).max(1);
         std::thread::scope(|s| {
-            for _ in 0..self.threads.min(n.max(1)) {
+            for _ in 0..workers.min(n.max(1)) {
                 s.spawn(|| {
                     init();
                     let mut local = Local::new(self);
